@@ -19,20 +19,23 @@ ERRNO = {'EACCES': errno.EACCES, 'ENOENT': errno.ENOENT, 'EIO': errno.EIO, 'EMFI
 
 # fault kinds applicable to each event class (the single-fault space enumerated per world)
 FAULT_KINDS = {
-    'scandir': ['EACCES', 'ENOENT'],
-    'open_r': ['EACCES', 'ENOENT', 'EIO', 'EMFILE'],
-    'read': ['EIO', 'crash'],
-    'open_w': ['EACCES', 'EROFS', 'EMFILE', 'crash'],
+    'scandir': ['EACCES', 'ENOENT', 'INTR'],
+    'open_r': ['EACCES', 'ENOENT', 'EIO', 'EMFILE', 'INTR'],
+    'read': ['EIO', 'crash', 'INTR'],
+    'open_w': ['EACCES', 'EROFS', 'EMFILE', 'crash', 'INTR'],
     'opened_w': ['crash'],
-    'write': ['ENOSPC:0', 'ENOSPC:half', 'EIO:half', 'crash_before', 'crash_after'],
+    'write': ['ENOSPC:0', 'ENOSPC:half', 'EIO:half', 'crash_before', 'crash_after', 'INTR_before', 'INTR_after'],
     'close_w': ['EIO:flushed', 'EIO:lost', 'crash'],
     'stdout': ['EPIPE'],
-    'os_rename': ['EIO', 'EACCES', 'crash_before', 'crash_after'],       # os.rename / os.replace onto or away from a world path
-    'os_remove': ['EIO', 'EACCES', 'crash_before', 'crash_after'],       # os.remove / os.unlink
+    'os_rename': ['EIO', 'EACCES', 'crash_before', 'crash_after', 'INTR_before', 'INTR_after'],       # os.rename / os.replace onto or away from a world path
+    'os_remove': ['EIO', 'EACCES', 'crash_before', 'crash_after', 'INTR_before', 'INTR_after'],       # os.remove / os.unlink
     'fsync': ['EIO', 'crash'],                                           # os.fsync on a descriptor opened through os.open
     'os_chmod': ['EACCES', 'crash_before'],                              # os.chmod (shutil.copymode ...) on a world path
     'truncate': ['EIO', 'crash_before', 'crash_after'],                  # os.truncate / os.ftruncate
 }
+# INTR = the user's Ctrl-C (SIGINT with Python's default handler): KeyboardInterrupt surfaces at the intercepted call, either
+# before it did anything or right after it completed.  Unlike a crash, the command's `with`/`finally`/`except BaseException`
+# code runs and buffered data is flushed on the way out; unlike an errno fault, `except OSError`/`except Exception` do not see it.
 INPUT_SIDE = {'scandir', 'open_r', 'read', 'open_w'}          # nothing of the target has been modified yet
 WRITE_PHASE = {'opened_w', 'write', 'close_w', 'os_rename', 'os_remove', 'fsync', 'os_chmod', 'truncate'}                # the real open-for-write has happened
 
@@ -272,6 +275,11 @@ class FileProxy(object):
             kind = f['kind']
             if kind == 'crash_before':
                 self._w.crash()
+            if kind == 'INTR_before':
+                raise KeyboardInterrupt()
+            if kind == 'INTR_after':
+                self._real.write(data)
+                raise KeyboardInterrupt()
             if kind.startswith('ENOSPC') or kind.startswith('EIO'):
                 code, _, how = kind.partition(':')
                 k = 0 if how == '0' else len(data) // 2
@@ -482,6 +490,8 @@ class World(object):
         raise SimCrash()
 
     def raise_errno(self, kind, path):
+        if kind.startswith('INTR'):
+            raise KeyboardInterrupt()
         code = ERRNO[kind]
         raise OSError(code, os.strerror(code), os.fspath(path) if not isinstance(path, int) else None)
 
@@ -594,7 +604,7 @@ class World(object):
                     if f is not None:
                         if f['kind'] == 'crash_before':
                             w.crash()
-                        if f['kind'] in ERRNO:
+                        if f['kind'] in ERRNO or f['kind'] == 'INTR_before':
                             w.raise_errno(f['kind'], target)
                 for x in a[:nargs]:
                     if not isinstance(x, int) and w.rel(x) is not None:
@@ -604,6 +614,8 @@ class World(object):
                 r = real(*a, **k)
                 if f is not None and f['kind'] == 'crash_after':
                     w.crash()
+                if f is not None and f['kind'] == 'INTR_after':
+                    raise KeyboardInterrupt()
                 return r
             wrapper.__name__ = name
             setattr(os, name, wrapper)
@@ -646,6 +658,11 @@ class World(object):
                 kind = f['kind']
                 if kind == 'crash_before':
                     w.crash()
+                if kind == 'INTR_before':
+                    raise KeyboardInterrupt()
+                if kind == 'INTR_after':
+                    real_os_write(fd, data)
+                    raise KeyboardInterrupt()
                 if kind.startswith('ENOSPC') or kind.startswith('EIO'):
                     code, _, how = kind.partition(':')
                     k = 0 if how == '0' else len(data) // 2
@@ -793,6 +810,9 @@ def execute(entry, root, cwd, argv, env, stdin_bytes, listing_seed, faults=None,
             exc = 'WorldTooHeavy'
         except SimCrash:
             exit_status = 137
+        except KeyboardInterrupt:       # the interpreter re-raises SIGINT on itself: the shell sees 130
+            exit_status = 130
+            exc = 'KeyboardInterrupt'
         except BaseException as e:      # an uncaught exception ends a real process with status 1
             exit_status = 1
             exc = type(e).__name__
